@@ -62,6 +62,8 @@ var concModel = porcupine.Model{
 				}
 			}
 			return out.Code == 200, stateOf(kept)
+		case "strategy":
+			return out.Code == 200, st // a strategy switch keeps exactly the same backends
 		case "list":
 			return out.List == st, st
 		case "request":
@@ -84,6 +86,7 @@ var concModel = porcupine.Model{
 }
 
 type concCase struct {
+	Prefill  int     `json:"prefilled_backends"` // added sequentially before the concurrent part (widens SetStrategy's copy window)
 	Strategy string  `json:"strategy"`
 	Admins   [][]cop `json:"admin_scripts"`
 	Traffic  []int   `json:"traffic_requests_per_goroutine"`
@@ -97,6 +100,12 @@ func runConc(c concCase) (res porcupine.CheckResult, hist []porcupine.Operation,
 	defer s.lb.Stop()
 	var mu sync.Mutex
 	start := time.Now()
+	for i := 0; i < c.Prefill; i++ {
+		in := cop{Op: "add", Name: fmt.Sprintf("p%d", i), Addr: fmt.Sprintf("http://p%d.test", i)}
+		call := time.Since(start)
+		code, _ := s.add(in.Name, in.Addr, 1)
+		hist = append(hist, porcupine.Operation{ClientId: 0, Input: in, Call: int64(call), Output: cout{Code: code}, Return: int64(time.Since(start))})
+	}
 	record := func(client int, in cop, call time.Duration, out cout) {
 		ret := time.Since(start)
 		mu.Lock()
@@ -130,6 +139,11 @@ func runConc(c concCase) (res porcupine.CheckResult, hist []porcupine.Operation,
 				case "remove":
 					code, _ := s.remove(op.Name)
 					record(a, op, call, cout{Code: code})
+				case "strategy":
+					installMu.Lock() // SetStrategy re-creates nothing, but keep installs and switches ordered for the harness transport swap
+					installMu.Unlock()
+					code, _ := s.setStrategy(op.Name)
+					record(a, cop{Op: "strategy", Addr: op.Name}, call, cout{Code: code})
 				case "list":
 					l, e := s.list()
 					var items []string
@@ -172,8 +186,13 @@ func runConc(c concCase) (res porcupine.CheckResult, hist []porcupine.Operation,
 	for i := range hist {
 		for j := range hist {
 			a, b := hist[i], hist[j]
-			if i < j && a.ClientId != b.ClientId && a.Input.(cop).Name != "" && a.Input.(cop).Name == b.Input.(cop).Name && a.Call < b.Return && b.Call < a.Return {
-				overlap = true
+			ai, bi := a.Input.(cop), b.Input.(cop)
+			if i < j && a.ClientId != b.ClientId && a.Call < b.Return && b.Call < a.Return {
+				sameName := ai.Name != "" && ai.Name == bi.Name && ai.Op != "strategy" && bi.Op != "strategy"
+				switchVsChange := (ai.Op == "strategy" && (bi.Op == "add" || bi.Op == "remove")) || (bi.Op == "strategy" && (ai.Op == "add" || ai.Op == "remove"))
+				if sameName || switchVsChange {
+					overlap = true
+				}
 			}
 		}
 	}
@@ -182,12 +201,12 @@ func runConc(c concCase) (res porcupine.CheckResult, hist []porcupine.Operation,
 }
 
 func TestC11Concurrent(t *testing.T) {
-	sub := lab.Sub("reconfig-concurrent-linearizable", "rapid draws 2-4 admin scripts (<=6 ops over add/remove/list on names {a,b}, fresh address per add) and 2-6 traffic goroutines (2-5 requests); all run on real threads behind a spin barrier against one balancer; "+
+	sub := lab.Sub("reconfig-concurrent-linearizable", "rapid draws 2-4 admin scripts (<=6 ops over add/remove/set_strategy/list on names {a,b}, fresh address per add; 0-256 backends pre-registered so that a strategy switch takes long enough to overlap) and 2-6 traffic goroutines (2-5 requests); all run on real threads behind a spin barrier against one balancer; "+
 		"the stamped history (<=40 operations) is checked with porcupine against the model {add appends (a duplicate may be refused), remove deletes every entry of the name, list equals the state, a request is served by a member - or by nobody iff the set is empty}; "+
-		"non-trivial = two admin operations on the same name overlapped in time; histories porcupine cannot decide in 10 s are discarded and counted")
+		"non-trivial = two admin operations on the same name, or a strategy switch and an add/remove, overlapped in time; histories porcupine cannot decide in 10 s are discarded and counted")
 	sub.NontrivialFloor(0.25)
 	lab.Check(t, sub, 400, 12000, func(rt *rapid.T) {
-		c := concCase{Strategy: rapid.SampledFrom(lab.Strategies).Draw(rt, "strategy")}
+		c := concCase{Strategy: rapid.SampledFrom(lab.Strategies).Draw(rt, "strategy"), Prefill: rapid.SampledFrom([]int{0, 0, 8, 64, 256}).Draw(rt, "prefill")}
 		seq := 0
 		na := rapid.IntRange(2, 4).Draw(rt, "admins")
 		for a := 0; a < na; a++ {
@@ -199,8 +218,10 @@ func TestC11Concurrent(t *testing.T) {
 				case 0, 1, 2, 3:
 					seq++
 					script = append(script, cop{Op: "add", Name: name, Addr: fmt.Sprintf("http://h%d.test", seq)})
-				case 4, 5, 6:
+				case 4, 5:
 					script = append(script, cop{Op: "remove", Name: name})
+				case 6, 7:
+					script = append(script, cop{Op: "strategy", Name: rapid.SampledFrom(lab.Strategies).Draw(rt, "to")})
 				default:
 					script = append(script, cop{Op: "list"})
 				}
